@@ -69,6 +69,17 @@ PROPS = {
         "assumptions": COMMON_ASSUMPTIONS,
         "explanation": "Allowed acceptor theorems + pad correspondence + acceptor oracle",
     },
+    "C06": {
+        "level": "proof",
+        "lean_modules": ["AnyTLS.Props.C06"],
+        "groups": [{"group": "auth", "quick_cases": 1000, "thorough_cases": 30000}],
+        "rule": "fixed: all 256 single-bit deviations and all 32x255 single-byte substitutions of the hash, every truncation of a valid preamble (with and without EOF), declared padding lengths {0,1,2,255,256,257,65534,65535} complete and one byte short, hashes of 7 related passwords; "
+                "generated: right/wrong/near-miss hashes x declared lengths x following frames or garbage x truncation x up to 5 cuts of the byte stream; non-trivial = every case; distinct by SHA-1 of the op line",
+        "level_text": "kernel-checked theorems over all byte strings: accept iff the first 32 bytes equal the expected hash and the declared padding has arrived (auth_accept_iff), reject iff 32 bytes are in and differ (auth_reject_iff: all 2^256-1 other strings), verdicts are stable under extension hence independent of fragmentation (auth_prefix_stable), the frame decoder starts exactly after the declared padding for every length 0..65535 (skip_exact), and no frame is ever acted on without an accepted preamble (no_session_without_accept). Tied to the code by a differential run of the real authenticate_client on a scripted reader and of the authenticate-then-Session sequence on the same reader",
+        "level_note": "trusted: Lean kernel, harness+driver glue; SHA-256 is opaque (a 32-byte string); TLS and Server::listen's accept loop are exercised by the e2e group (real loopback), not modelled",
+        "assumptions": COMMON_ASSUMPTIONS + ["tokio read_exact = loop of reads until the buffer is full or EOF"],
+        "explanation": "auth model theorems + auth correspondence",
+    },
 }
 
 NOT_YET = {}
